@@ -4,7 +4,7 @@ import math
 
 import numpy as np
 from hypothesis import strategies as st
-from vlib.harness import target
+from vlib.harness import call, target
 from scipy import integrate
 
 from vlib import strategies as S
@@ -130,7 +130,25 @@ def oracle_invariants(case):
         fp = arr(cop, meth, [pts[i] for i in perm], meth)
         require(np.all(np.abs(fp - full[perm]) <= 1e-13 * np.abs(full[perm]) + 1e-300),
                 '%s(theta=%r): %s changes when the batch is permuted' % (fam, th, meth), tag='row-independence')
+    # ... also when the batch holds a row from the edge or from an extreme corner of the unit square: whatever that row
+    # evaluates to, the interior rows keep their values (one overflowing row must not decide for the whole batch)
+    ext = EXTREME_ROWS[case['perm_seed'] % len(EXTREME_ROWS)]
+    front = (case['perm_seed'] // len(EXTREME_ROWS)) % 2 == 0
+    mixed = ([list(ext)] + [list(p) for p in pts]) if front else ([list(p) for p in pts] + [list(ext)])
+    for meth, full in (('partial_derivative', h), ('probability_density', c)):
+        kind_, got = call(getattr(cop, meth), np.array(mixed, dtype=float), allow=(ValueError, ZeroDivisionError, FloatingPointError), what=meth)
+        if kind_ == 'exc':
+            continue                     # a refusal of the extreme row is not a statement about the other rows
+        got = np.asarray(got, dtype=float)
+        inner = got[1:] if front else got[:-1]
+        require(inner.shape == full.shape and np.all(np.abs(inner - full) <= 1e-13 * np.abs(full) + 1e-300),
+                '%s(theta=%r): %s of the interior rows changes when the row %r joins the batch: %r -> %r'
+                % (fam, th, meth, ext, full[:3], inner[:3]), tag='row-independence')
     return {'nontrivial': nontrivial(fam, th, pts), 'classes': classes(fam, th, pts)}
+
+
+EXTREME_ROWS = [(0.0, 0.0), (1.0, 1.0), (0.0, 0.4), (0.3, 0.0), (1.0, 0.6), (0.7, 1.0), (1e-40, 1e-40), (1e-200, 1e-200),
+                (0.5, 1e-40), (1e-40, 0.5), (1 - 1e-16, 1 - 1e-16), (1e-200, 1 - 1e-16)]
 
 
 def integral_strategy():
